@@ -25,6 +25,12 @@
 //! history: kind of the call, surfaced or absorbed, acknowledgements the client got, the calls
 //! issued after the failed one (the log's BufWriter is flushed again when the store is dropped),
 //! batches found by the reopen under both models.
+//!
+//! Multi-writer faults (`run_multi_writer`): the streams above are single-threaded by
+//! construction (single-stepped store).  One more family puts N client threads inside
+//! `KeyValueStore::put` at once while the log's fdatasync starts failing (per-thread `when=K+` /
+//! `when=K`), so that batches are coalesced and overtake each other between the log's write and
+//! fsync queues.  Oracle only (see there).
 use crate::common::*;
 use crate::fstrace::{self, FsOp, SimFs};
 use crate::store::*;
@@ -693,6 +699,469 @@ fn trace_history_inject(work: &str, root: &str, cfg: &Cfg, ops: &[Op], inject: O
     Ok(Traced { ops, report: rep, counts })
 }
 
+// ---------------------------------------------------------------------------------------------
+// multi-writer fault family: N client threads inside `KeyValueStore::put` at the same time, the
+// log's fdatasync starts failing (`strace -e inject=fdatasync:error=EIO:when=K+`: strace counts
+// per thread, so every thread's own syncs fail from its K-th on; `when=K`: only its K-th).
+// The history of the single-stepped streams above is sequential by construction; here the
+// batches of several writers are coalesced into one write(2) and one fdatasync and overtake each
+// other between the write queue and the fsync queue.  No single-stepping: the memtable is large
+// enough never to roll over, so only the log and the manifest are written.
+//
+// Oracle (no model involved):
+//  * at the moment a put is acknowledged (its marker is ISSUED after `put` returned Ok) the bytes of
+//    its key and value lie within the prefix of the log that a SUCCESSFULLY returned fdatasync
+//    covers — an fdatasync covers the writes that had completed when it was issued, and counts
+//    from the moment it returned;
+//  * power loss at the end of the run (model b: every file cut back to its last successfully
+//    synced content), reopened by the real code in a fresh process: every acknowledged put is
+//    there with its value, and nothing is there that no client wrote; the same for the directory
+//    as the process left it (model a);
+//  * if an fdatasync of the log failed, some put returned an error.
+
+/// child: `C02mw <root> <cfg> <threads> <puts> <marker> <lockstep 0|1>`
+pub fn child_mw(rest: &[String]) -> ! {
+    use std::os::unix::io::AsRawFd;
+    let root = &rest[0];
+    let cfg = parse_cfg(&rest[1]);
+    let nt: usize = rest[2].parse().unwrap();
+    let np: usize = rest[3].parse().unwrap();
+    let lockstep = rest[5] == "1";
+    let marker = std::fs::OpenOptions::new().create(true).append(true).open(&rest[4]).unwrap();
+    let mfd = marker.as_raw_fd();
+    let mark = move |s: String| {
+        // one write(2) per marker line (O_APPEND: lines of different threads do not mix)
+        unsafe { libc::write(mfd, s.as_ptr() as *const libc::c_void, s.len()) };
+    };
+    let sim = match Sim::open(root, &cfg) {
+        Ok(s) => s,
+        Err(e) => {
+            mark(format!("MARK open-error {}\n", e.chars().take(80).collect::<String>()));
+            std::process::exit(3);
+        }
+    };
+    mark("MARK opened\n".to_string());
+    let kvs = sim.kvs();
+    let barrier = std::sync::Barrier::new(nt);
+    let progress = std::sync::atomic::AtomicU64::new(0);
+    let finished = std::sync::atomic::AtomicU64::new(0);
+    let in_flight: Vec<std::sync::atomic::AtomicI64> = (0..nt).map(|_| std::sync::atomic::AtomicI64::new(-1)).collect();
+    use std::sync::atomic::Ordering::SeqCst;
+    std::thread::scope(|s| {
+        for t in 0..nt {
+            let (barrier, mark, progress, finished, in_flight) = (&barrier, &mark, &progress, &finished, &in_flight);
+            s.spawn(move || {
+                let mut errors = 0;
+                for i in 0..np {
+                    if lockstep {
+                        barrier.wait();
+                    }
+                    // a client that has been told an error three times gives up (it keeps meeting
+                    // the others at the barrier)
+                    if errors >= 3 {
+                        continue;
+                    }
+                    let (k, v) = mw_kv(t, i);
+                    mark(format!("MARK b {} {}\n", t, i));
+                    in_flight[t].store(i as i64, SeqCst);
+                    let r = kvs.put(&k, &v);
+                    in_flight[t].store(-1, SeqCst);
+                    progress.fetch_add(1, SeqCst);
+                    match r {
+                        Ok(()) => mark(format!("MARK a {} {}\n", t, i)),
+                        Err(_) => {
+                            errors += 1;
+                            mark(format!("MARK e {} {}\n", t, i));
+                        }
+                    }
+                }
+                finished.fetch_add(1, SeqCst);
+            });
+        }
+        // watchdog: a put that does not return (a writer stranded behind a failed one) would keep
+        // the run alive for ever; name the puts in flight and end the process
+        let (mark, progress, finished, in_flight) = (&mark, &progress, &finished, &in_flight);
+        s.spawn(move || {
+            let mut last = (progress.load(SeqCst), std::time::Instant::now());
+            while finished.load(SeqCst) < nt as u64 {
+                std::thread::sleep(std::time::Duration::from_millis(50));
+                let p = progress.load(SeqCst);
+                if p != last.0 {
+                    last = (p, std::time::Instant::now());
+                } else if last.1.elapsed() > std::time::Duration::from_millis(MW_HANG_MS) {
+                    let stuck: Vec<String> = in_flight.iter().enumerate().filter(|(_, x)| x.load(SeqCst) >= 0).map(|(t, x)| format!("{}/{}", t, x.load(SeqCst))).collect();
+                    mark(format!("MARK hung {}\n", stuck.join(",")));
+                    std::process::exit(0);
+                }
+            }
+        });
+    });
+    drop(sim);
+    std::process::exit(0);
+}
+
+/// no put returned for this long: the puts in flight are taken to hang
+const MW_HANG_MS: u64 = 5000;
+
+fn mw_kv(t: usize, i: usize) -> (Vec<u8>, Vec<u8>) {
+    (format!("mw-key-{}-{:03}", t, i).into_bytes(), format!("mw-value-{}-{:03}-{}", t, i, "x".repeat(5 + (t * 7 + i * 3) % 40)).into_bytes())
+}
+
+/// One line per system call, `<unfinished ...>` / `<... resumed>` pairs of `strace -f` merged.
+/// `sync_at_entry`: an fsync/fdatasync stands where it was ISSUED (it covers what had completed by
+/// then), every other call where it COMPLETED.  Also returns, for every output line, the input
+/// line numbers of its entry and its exit.
+fn linearize(text: &str, sync_at_entry: bool) -> Vec<(String, usize, usize)> {
+    let mut out: Vec<Option<(String, usize, usize)>> = vec![];
+    let mut open: std::collections::HashMap<String, (Option<usize>, String, usize)> = Default::default();
+    for (ln, line) in text.lines().enumerate() {
+        let t = line.trim_start();
+        let (pid, rest) = match t.split_once(' ') {
+            Some((p, r)) if p.chars().all(|c| c.is_ascii_digit()) => (p.to_string(), r.trim_start()),
+            _ => {
+                out.push(Some((line.to_string(), ln, ln)));
+                continue;
+            }
+        };
+        if let Some(head) = rest.strip_suffix("<unfinished ...>") {
+            let name = head.split('(').next().unwrap_or("");
+            let slot = if sync_at_entry && (name == "fsync" || name == "fdatasync") {
+                out.push(None);
+                Some(out.len() - 1)
+            } else {
+                None
+            };
+            open.insert(pid, (slot, head.trim_end().to_string(), ln));
+        } else if rest.starts_with("<... ") {
+            let tail = rest.split_once("resumed>").map(|x| x.1).unwrap_or("");
+            if let Some((slot, head, entry)) = open.remove(&pid) {
+                // `<... write resumed>)              = 11`: one space round the `=`, as in unsplit lines
+                let ret = tail.split_once("= ").map(|x| x.1).unwrap_or("?");
+                let merged = (format!("{} {}) = {}", pid, head, ret), entry, ln);
+                match slot {
+                    Some(s) => out[s] = Some(merged),
+                    None => out.push(Some(merged)),
+                }
+            }
+        } else {
+            out.push(Some((line.to_string(), ln, ln)));
+        }
+    }
+    out.into_iter().flatten().collect()
+}
+
+fn unescape_xx(s: &str) -> Vec<u8> {
+    let b = s.as_bytes();
+    let mut out = Vec::with_capacity(b.len() / 4);
+    let mut i = 0;
+    while i < b.len() {
+        if b[i] == b'\\' && i + 3 < b.len() && b[i + 1] == b'x' {
+            out.push(u8::from_str_radix(std::str::from_utf8(&b[i + 2..i + 4]).unwrap_or("00"), 16).unwrap_or(0));
+            i += 4;
+        } else {
+            out.push(b[i]);
+            i += 1;
+        }
+    }
+    out
+}
+
+fn find_sub(h: &[u8], n: &[u8]) -> Option<usize> {
+    if n.is_empty() || h.len() < n.len() {
+        return None;
+    }
+    (0..=h.len() - n.len()).find(|&i| &h[i..i + n.len()] == n)
+}
+
+struct MwCase {
+    nt: usize,
+    np: usize,
+    lockstep: bool,
+    /// `K+` (from each thread's K-th fdatasync on) or `K` (only its K-th)
+    when: String,
+}
+
+fn run_multi_writer(args: &Args, rec: &mut Recorder, exe: &std::path::Path) {
+    let n_cases = if args.thorough { 36 } else { 8 };
+    let mut rng0 = Rng::for_case(args.seed, 103, 0);
+    let mut cfg = Cfg::gen(&mut rng0);
+    cfg.memtable_bytes = 1 << 22;
+    // fdatasyncs of the main thread while the store opens (the manifest's): the writers are other
+    // threads with their own counters, but the injection must not hit the open
+    let work0 = scratch_dir("c02mw.base");
+    std::fs::create_dir_all(&work0).unwrap();
+    let base = trace_mw(&work0, &format!("{}/store", work0), &cfg, &MwCase { nt: 1, np: 0, lockstep: false, when: String::new() }, exe);
+    let _ = std::fs::remove_dir_all(&work0);
+    let n0 = match &base {
+        Ok(t) => t.lines().filter(|l| l.contains(" fdatasync(") || l.contains(" fsync(")).count(),
+        Err(e) => {
+            rec.case("# multi-writer baseline", "#", Verdict::Fail { class: "machinery".into(), detail: e.clone() }, None);
+            return;
+        }
+    };
+    let wanted: Vec<u64> = (0..n_cases).collect();
+    let first = rec.n;
+    let jobs: Vec<u64> = wanted.iter().copied().filter(|i| match rec.only_case { None => true, Some(k) => k == first + i }).collect();
+    let outs = par_map(jobs.clone(), |_, i| mw_case(args.seed, i, n0, &cfg, exe));
+    let mut outs: BTreeMap<u64, MwOut> = jobs.into_iter().zip(outs.into_iter()).collect();
+    for i in 0..n_cases {
+        let Some(o) = outs.remove(&i) else {
+            rec.skip();
+            continue;
+        };
+        for (k, n) in &o.counts {
+            rec.add(k, *n);
+        }
+        match o.verdict {
+            Some(v) => rec.case(&format!("# {}", o.tag), "#", v, Some(fnv(format!("{} {}", o.tag, i).as_bytes()))),
+            // keeps the case numbering fixed
+            None => rec.case(&format!("# {} (not reached)", o.tag), "#", Verdict::Ok, None),
+        }
+    }
+}
+
+struct MwOut {
+    tag: String,
+    /// `None`: the case did not reach its subject (the store did not open)
+    verdict: Option<Verdict>,
+    counts: Vec<(String, u64)>,
+}
+
+fn mw_case(seed: u64, i: u64, n0: usize, cfg: &Cfg, exe: &std::path::Path) -> MwOut {
+    let mut counts: Vec<(String, u64)> = vec![];
+    let mut rng = Rng::for_case(seed, 103, 1 + i);
+    let nt = 2 + rng.below(3) as usize;
+    let k = n0 as u64 + 1 + rng.below(5);
+    let case = MwCase { nt, np: (k as usize + 4) * nt.min(3) + rng.below(6) as usize, lockstep: i % 4 != 3, when: if i % 3 == 2 { k.to_string() } else { format!("{}+", k) } };
+    let tag = format!("multi-writer fault: {} threads x {} puts{} fdatasync=EIO when={} (per thread)", case.nt, case.np, if case.lockstep { " lock-step" } else { "" }, case.when);
+    let work = scratch_dir(&format!("c02mw.{}", i));
+    std::fs::create_dir_all(&work).unwrap();
+    let root = format!("{}/store", work);
+    let text = match trace_mw(&work, &root, &cfg, &case, exe) {
+        Ok(t) => t,
+        Err(e) => {
+            let _ = std::fs::remove_dir_all(&work);
+            return MwOut { tag, verdict: Some(Verdict::Fail { class: "machinery".into(), detail: e }), counts };
+        }
+    };
+    let marker = format!("{}/marker", work);
+    let mut bad: Vec<String> = vec![];
+    // ---- pass 1: durability at the moment of each acknowledgement (entry/exit order of the raw log)
+    #[derive(Default)]
+    struct LogSt {
+        data: Vec<u8>,
+        durable: usize,
+    }
+    let mut logs: BTreeMap<String, LogSt> = BTreeMap::new();
+    // events in raw-line order: (line, kind) with kind: write completed / sync issued / sync returned / marker issued
+    enum Ev {
+        Wrote(String, Vec<u8>),
+        SyncIssue(String, String),
+        SyncRet(String, bool),
+        Mark(String),
+    }
+    let mut evs: Vec<(usize, u8, Ev)> = vec![];
+    for (l, entry, exit) in linearize(&text, false) {
+        let t = l.trim_start();
+        let Some((pid, rest)) = t.split_once(' ') else { continue };
+        let rest = rest.trim_start();
+        let Some(p) = rest.find('(') else { continue };
+        let name = &rest[..p];
+        let Some(eq) = rest.rfind(") = ") else { continue };
+        let ret = rest[eq + 4..].trim();
+        let path = rest[p + 1..].find('<').and_then(|a| rest[p + 1..].find('>').map(|b| String::from_utf8_lossy(&unescape_xx(&rest[p + 1 + a + 1..p + 1 + b])).to_string())).unwrap_or_default();
+        match name {
+            "write" => {
+                let q1 = rest.find('"');
+                let q2 = rest[..eq].rfind('"');
+                let (Some(q1), Some(q2)) = (q1, q2) else { continue };
+                if q2 <= q1 || ret.starts_with('-') {
+                    continue;
+                }
+                let mut data = unescape_xx(&rest[q1 + 1..q2]);
+                let n: usize = ret.split_whitespace().next().and_then(|x| x.parse().ok()).unwrap_or(data.len());
+                data.truncate(n);
+                if path == marker {
+                    for m in String::from_utf8_lossy(&data).lines() {
+                        if let Some(m) = m.strip_prefix("MARK ") {
+                            // the marker was ISSUED after the put returned
+                            evs.push((entry, 0, Ev::Mark(m.to_string())));
+                        }
+                    }
+                } else if let Some(r) = path.strip_prefix(&format!("{}/", root)) {
+                    if r.starts_with("log.") {
+                        evs.push((exit, 1, Ev::Wrote(r.to_string(), data)));
+                    }
+                }
+            }
+            "fdatasync" | "fsync" => {
+                if let Some(r) = path.strip_prefix(&format!("{}/", root)) {
+                    if r.starts_with("log.") {
+                        let ok = !ret.starts_with('-');
+                        // an injected failure is not executed at all; a real one may or may not
+                        // have reached the disk: neither counts
+                        evs.push((entry, 2, Ev::SyncIssue(r.to_string(), pid.to_string())));
+                        evs.push((exit, 3, Ev::SyncRet(pid.to_string(), ok)));
+                    }
+                }
+            }
+            _ => {}
+        }
+    }
+    // raw-line order; on one line (a call that was not split) issue before return, and a
+    // completed write before a sync issued on the same line cannot happen (one call per line)
+    evs.sort_by_key(|e| (e.0, e.1));
+    let mut pending: BTreeMap<String, (String, usize)> = BTreeMap::new();
+    let mut acked: Vec<(usize, usize)> = vec![];
+    let mut begun: Vec<(usize, usize)> = vec![];
+    let mut errored = 0u64;
+    let (mut syncs_ok, mut syncs_failed) = (0u64, 0u64);
+    let mut opened = false;
+    let mut hung: Option<String> = None;
+    for (_, _, e) in &evs {
+        match e {
+            Ev::Wrote(p, d) => logs.entry(p.clone()).or_default().data.extend_from_slice(d),
+            Ev::SyncIssue(p, pid) => {
+                let len = logs.entry(p.clone()).or_default().data.len();
+                pending.insert(pid.clone(), (p.clone(), len));
+            }
+            Ev::SyncRet(pid, ok) => {
+                if let Some((p, len)) = pending.remove(pid) {
+                    if *ok {
+                        syncs_ok += 1;
+                        let st = logs.entry(p).or_default();
+                        st.durable = st.durable.max(len);
+                    } else {
+                        syncs_failed += 1;
+                    }
+                }
+            }
+            Ev::Mark(m) => {
+                let f: Vec<&str> = m.split(' ').collect();
+                match f[0] {
+                    "opened" => opened = true,
+                    "hung" => hung = Some(f.get(1).unwrap_or(&"").to_string()),
+                    "b" if f.len() == 3 => begun.push((f[1].parse().unwrap_or(0), f[2].parse().unwrap_or(0))),
+                    "e" => errored += 1,
+                    "a" if f.len() == 3 => {
+                        let (t, i): (usize, usize) = (f[1].parse().unwrap_or(0), f[2].parse().unwrap_or(0));
+                        acked.push((t, i));
+                        let (k, v) = mw_kv(t, i);
+                        // where the put's bytes end in its log, and how far that log is durable
+                        let place = logs.iter().find_map(|(p, st)| find_sub(&st.data, &k).map(|o| (p.clone(), o, st.durable, find_sub(&st.data[o..], &v).map(|x| o + x + v.len()))));
+                        match place {
+                            Some((p, _, durable, Some(end))) if end <= durable => {
+                                let _ = p;
+                            }
+                            Some((p, _, durable, Some(end))) => bad.push(format!("put {}/{} was acknowledged when {} was durable up to byte {} only (last successfully returned fdatasync); its bytes end at {}", t, i, p, durable, end)),
+                            _ => bad.push(format!("put {}/{} was acknowledged and its bytes are in no log", t, i)),
+                        }
+                    }
+                    _ => {}
+                }
+            }
+        }
+    }
+    if !opened {
+        counts.push(("multi_writer.not_reached(open failed)".into(), 1));
+        let _ = std::fs::remove_dir_all(&work);
+        return MwOut { tag, verdict: None, counts };
+    }
+    if syncs_failed > 0 && errored == 0 {
+        bad.push(format!("{} fdatasync(s) of the log failed and no put returned an error", syncs_failed));
+    }
+    // ---- pass 2: the images at the end of the run, reopened by the real code
+    let lin: String = linearize(&text, true).into_iter().map(|x| x.0).collect::<Vec<_>>().join("\n");
+    let ops = fstrace::parse(&lin, &root, &marker);
+    let mut fs = SimFs::default();
+    for o in &ops {
+        fs.apply(o);
+    }
+    let rb = reopen_simfs(exe, &fs, true, &format!("{}/img", work), &cfg, 0, None);
+    let ra = reopen_image(exe, &root, &cfg, 0, None);
+    for (r, what) in [(&ra, "after the process exit"), (&rb, "after a power loss at the end of the run")] {
+        if let Some(m) = &r.mach {
+            bad.push(format!("machinery: {}", m));
+            continue;
+        }
+        if r.code != Some(0) {
+            bad.push(format!("reopen {} failed: exit {:?} {}", what, r.code, r.text.lines().last().unwrap_or("").chars().take(160).collect::<String>()));
+            continue;
+        }
+        let mut have: BTreeMap<Vec<u8>, Vec<u8>> = BTreeMap::new();
+        for l in r.text.lines() {
+            if let Some(s) = l.strip_prefix("scan ") {
+                for kv in s.split(',').filter(|x| !x.is_empty()) {
+                    if let Some((k, v)) = kv.split_once('=') {
+                        have.insert(unhex(k).unwrap_or_default(), unhex(v).unwrap_or_default());
+                    }
+                }
+            }
+        }
+        let mut missing = vec![];
+        for (t, i) in &acked {
+            let (k, v) = mw_kv(*t, *i);
+            if have.get(&k) != Some(&v) {
+                missing.push(format!("{}/{}", t, i));
+            }
+        }
+        if !missing.is_empty() {
+            bad.push(format!("reopened {}: acknowledged puts are missing: {}", what, missing.join(" ")));
+        }
+        let invented = have.iter().filter(|(k, v)| !begun.iter().any(|(t, i)| { let (bk, bv) = mw_kv(*t, *i); &bk == *k && &bv == *v })).count();
+        if invented > 0 {
+            bad.push(format!("reopened {}: {} entries that no client wrote", what, invented));
+        }
+    }
+    counts.push(("multi_writer.runs".to_string(), 1));
+    if hung.is_some() {
+        counts.push(("multi_writer.runs_ended_by_a_put_that_did_not_return".to_string(), 1));
+    }
+    counts.push((format!("multi_writer.threads_{}", case.nt), 1));
+    counts.push((if syncs_failed > 0 { "multi_writer.runs_with_a_failed_fdatasync" } else { "multi_writer.runs_without_a_failed_fdatasync(K not reached)" }.to_string(), 1));
+    counts.push(("multi_writer.fdatasyncs_ok".to_string(), syncs_ok));
+    counts.push(("multi_writer.fdatasyncs_failed".to_string(), syncs_failed));
+    counts.push(("multi_writer.puts_acknowledged".to_string(), acked.len() as u64));
+    counts.push(("multi_writer.puts_returned_err".to_string(), errored));
+    counts.push(("multi_writer.puts_begun".to_string(), begun.len() as u64));
+    bad.truncate(4);
+    // a put that never returns: the defect of `KeyValueStore::write` (an early error return drops
+    // its place in the store's wait list without waking the writer behind it).  Decidable on the
+    // run: some put returned an error while a put that began later was in progress
+    let v = if !bad.is_empty() {
+        Verdict::Fail { class: "io-error-acknowledged-or-state-damaged".into(), detail: format!("{} :: {}", tag, bad.join("; ")) }
+    } else if let Some(h) = &hung {
+        Verdict::Fail { class: "write-error-strands-later-writer".into(), detail: format!("{} :: after {} put(s) returned an error, the put(s) {} did not return within {} ms (the run was ended there)", tag, errored, h, MW_HANG_MS) }
+    } else {
+        Verdict::Ok
+    };
+    let _ = std::fs::remove_dir_all(&work);
+    MwOut { tag, verdict: Some(v), counts }
+}
+
+/// run the multi-writer child under strace; the raw trace text
+fn trace_mw(work: &str, root: &str, cfg: &Cfg, case: &MwCase, exe: &std::path::Path) -> Result<String, String> {
+    let marker = format!("{}/marker", work);
+    let trace = format!("{}/trace", work);
+    let _ = std::fs::remove_file(&marker);
+    let mut cmd = std::process::Command::new("strace");
+    cmd.args(["-f", "-o", &trace, "-s", "4000000", "-xx", "-y", "-e", TRACE_SET]);
+    if !case.when.is_empty() {
+        cmd.args(["-e", &format!("inject=fdatasync:error=EIO:when={}", case.when)]);
+    }
+    let st = cmd
+        .arg(exe)
+        .args(["C02mw", root, &cfg_arg(cfg), &case.nt.to_string(), &case.np.to_string(), &marker, if case.lockstep { "1" } else { "0" }])
+        .stdout(std::process::Stdio::null())
+        .stderr(std::process::Stdio::null())
+        .status()
+        .map_err(|e| format!("strace: {}", e))?;
+    let _ = st;
+    let text = std::fs::read_to_string(&trace).map_err(|e| e.to_string())?;
+    let _ = std::fs::remove_file(&trace);
+    Ok(text)
+}
+
 pub fn run(args: &Args) {
     let mut rec = Recorder::new(&args.out, args.only_case);
     let have_strace = std::process::Command::new("strace").arg("-V").output().map(|o| o.status.success()).unwrap_or(false);
@@ -714,7 +1183,12 @@ pub fn run(args: &Args) {
     // ... and one that reopens (and crashes around the reopen of) a store whose level 0 holds more
     // mutually overlapping files than the tree has levels, so that `recover` has to shift its chain
     let directed = 5u64;
+    // development aid: BLUE_C02_ONLY=mw runs the multi-writer fault family alone (case numbers differ)
+    let only_mw = std::env::var("BLUE_C02_ONLY").map(|v| v == "mw").unwrap_or(false);
     for h in 0..nh + directed {
+        if only_mw {
+            break;
+        }
         let mut rng = Rng::for_case(args.seed, 102, h);
         let mut cfg = Cfg::gen(&mut rng);
         cfg.memtable_bytes = *rng.pick(&[200, 1 << 20]);
@@ -1177,8 +1651,9 @@ pub fn run(args: &Args) {
         rec.count("histories");
         let _ = std::fs::remove_dir_all(&work);
     }
+    run_multi_writer(args, &mut rec, &exe);
     rec.finish(
-        "seeded single-stepped store histories (puts, dels, multi-key batches in a quarter of them, flushes, compaction steps, reopens, verifier passes) run once under strace; a crash is simulated before every file-system-mutating system call (write, fsync/fdatasync, link, rename, unlink, mkdir, rmdir, create) and after the last one, under (a) completed calls persist and (b) unsynced file bytes are lost; every distinct image is reopened by the real code in a fresh process and read back (point reads of every key and a full scan); for a seeded sample of the images the reopen is traced, compared with the model's recovery of the same crash point, crashed before each of ITS mutating calls (both models again), reopened and compared once more; a seeded sample of single injected faults per history is replayed in the model at the same operation (failed call, surfaced/absorbed, acknowledgements, calls after the failure, batches found by the reopen after the process exit and after a power loss on top); non-trivial = every distinct (history, crash point, model, image) reopened, every distinct (history, fault), every compared operation list",
+        "seeded single-stepped store histories (puts, dels, multi-key batches in a quarter of them, flushes, compaction steps, reopens, verifier passes) run once under strace; a crash is simulated before every file-system-mutating system call (write, fsync/fdatasync, link, rename, unlink, mkdir, rmdir, create) and after the last one, under (a) completed calls persist and (b) unsynced file bytes are lost; every distinct image is reopened by the real code in a fresh process and read back (point reads of every key and a full scan); for a seeded sample of the images the reopen is traced, compared with the model's recovery of the same crash point, crashed before each of ITS mutating calls (both models again), reopened and compared once more; a seeded sample of single injected faults per history is replayed in the model at the same operation (failed call, surfaced/absorbed, acknowledgements, calls after the failure, batches found by the reopen after the process exit and after a power loss on top); a multi-writer fault family (2..4 client threads inside KeyValueStore::put at once, lock-step or free, every thread's fdatasyncs failing from its K-th on or only its K-th, strace inject; oracle only: at each acknowledgement the put's bytes lie in the prefix of the log covered by a successfully returned fdatasync, and the images after the process exit and after a power loss at the end of the run reopen with every acknowledged put and nothing no client wrote); non-trivial = every distinct (history, crash point, model, image) reopened, every distinct (history, fault), every compared operation list, every multi-writer fault run",
         &[],
     );
 }
